@@ -1126,6 +1126,22 @@ class FeatureSwitchMonitor(Monitor):
                 out += self._values(sess, set(en), f"after enabling {en} with recomputation")
             return out
         # ---- edits / undo / redo
+        if k == "ctrl" and rec.op.get("what") == "update_attrs":
+            prot = set(self.available) | {t.features.time_key}
+            keys = set(rec.op["attrs"])
+            if keys & prot:
+                self.evals += 1
+                self.count("protected-attr-offers-via-controller")
+                if rec.out.ok or rec.out.exc_type != "ValueError":
+                    out.append(violation(
+                        "protected", f"TracksController.update_node_attrs {sorted(keys)} with a "
+                        f"managed/time key: {'accepted' if rec.out.ok else rec.out.exc_type}, "
+                        "expected ValueError", f"C10/protected/controller/{sorted(keys & prot)[0]}"))
+                elif {x: rec.pre[x] for x in STATE_SECTIONS} != \
+                        {x: rec.post[x] for x in STATE_SECTIONS}:
+                    out.append(violation(
+                        "protected", "refused controller update changed the graph: "
+                        f"{diff(rec.pre, rec.post)[:4]}", "C10/protected/controller/changed"))
         if k == "update_attrs" and rec.op["node"] in rec.pre["nodes"]:
             prot = set(self.available) | {t.features.time_key}
             keys = set(rec.op["attrs"])
